@@ -76,12 +76,14 @@ func planC11(tier string, seed int64) (*core.Plan, error) {
 				}
 			})
 			// other guardable statements: the well-formed expressions only (few)
-			for _, stmt := range []string{"container", "list", "leaf-list", "case", "choice", "uses", "augment", "refine", "anydata"} {
+			for _, stmt := range []string{"container", "list", "leaf-list", "case", "choice", "uses", "augment", "refine", "anydata", "leaf-importing"} {
 				allTokenSeqs(5, func(toks []string) {
 					if !wellFormedIff(toks) {
-						return
-					}
-					if tier == "quick" && r.Intn(100) >= 12 {
+						// a sample of the malformed ones: an error wherever the statement is written
+						if len(toks) > 3 || r.Intn(100) >= 10 {
+							return
+						}
+					} else if tier == "quick" && r.Intn(100) >= 12 {
 						return
 					}
 					on := subs[r.Intn(len(subs))]
